@@ -120,6 +120,14 @@ def run(prog, tier):
                 okm = False
     rets_tt = [U(t_) for t_ in rtt.return_terms()]
     ok = okm and seen_near and seen_full and f"trapezium_full({xa_}, {da_})" in rets_tt
+    # the masked path is taken as soon as ANY cell is near zero (with `.all()` a single regular cell sends the near-zero ones through
+    # the exact transform, which divides by their dh)
+    for if_ in ast.walk(tt):
+        if isinstance(if_, ast.If) and any(isinstance(x, ast.Call) and U(x.func) == "trapezium_near_zero" for b_ in if_.body for x in ast.walk(b_)):
+            gt_ = rtt.term(if_.test, if_)
+            if not any(pmatch(gt_, pt_) is not None for pt_ in (f"(abs({da_}) < _c).any()", f"any(abs({da_}) < _c)", f"(abs({da_}) < _c).sum() > 0",
+                                                                f"count_nonzero(abs({da_}) < _c) > 0")):
+                ok = False
     thr = [n for n in ast.walk(tt) if isinstance(n, ast.Compare) and "abs(dh)" in U(n.left)]
     okt = len(thr) == 1 and isinstance(thr[0].comparators[0], ast.Constant) and 0 < thr[0].comparators[0].value <= 1e-3
     obs.append(struct_ob("branch-dispatch", fqual(mi, tt), ok and okt,
